@@ -2558,6 +2558,19 @@ def rule_call_arguments_per_parameter(ctx, rep: Report, rid="M4"):
                 and any(("self.can_be_pointer(" in t or "self.is_shared_ptr(" in t) and pol for t, pol in ftxt)
             if not (neither and pred):
                 bad_star.append((sorted(empty), [t for t, pol in ftxt][:6]))
+    # what "omitted at this arity" is decided by: the parameter's whole name looked up in the collection of given names
+    tests = [c for c in ast.walk(loop) if isinstance(c, ast.Compare) and len(c.ops) == 1 and isinstance(c.ops[0], (ast.In, ast.NotIn))
+             and unparse(c.left) == f"{v}.name"]
+    for c in tests:
+        e = c.comparators[0]
+        if isinstance(e, ast.Name):
+            vs = [st.value for st in la.get(e.id, []) if isinstance(st, ast.Assign)]
+            e = vs[0] if len(vs) == 1 else e
+        joined = isinstance(e, ast.Call) and isinstance(e.func, ast.Attribute) and e.func.attr in ("join", "format") or isinstance(e, (ast.JoinedStr, ast.BinOp))
+        rep.add(rid, "defaults:a parameter counts as given when its whole name is among the given names", is_given_names(c.comparators[0]),
+                f"`{unparse(c)[:60]}` looks the name up in `{unparse(e)[:50]}`" + (": a string, so `in` is a substring test and a parameter whose name "
+                "occurs inside another given name (`x1` in `x10`) is taken as given - the routine reads an argument that was never passed instead of "
+                "using the default" if joined else ": not the list of the names of the parameters of this arity"), f"{ci.mod.rel}:{c.lineno}")
     rep.add(rid, "defaults:an omitted parameter contributes exactly its default's original text", n_omitted >= 1 and not bad_default,
             f"{n_omitted} path(s) for an omitted defaulted parameter; contributions other than `{v}.default`: {bad_default[:2]}: anything glued to the default "
             f"(a `*`, the name) changes the expression the declared entity is called with", loc)
@@ -2921,3 +2934,54 @@ def rule_ignore_list_kept_as_given(ctx, rep: Report, rid="X8", classes=("PybindW
                     f"{ci.mod.rel}:{st.lineno}")
     if n < 2:
         raise AnalysisError(f"{rep.prop}/{rid}: {n} constructors store the ignore list")
+
+
+def rule_every_function_group_gets_its_file(ctx, rep: Report, rid="T16"):
+    """wrap_methods(global_funcs=True) is the only producer of free-function files: it groups the functions handed in by
+    name and, for each group, appends `<name>.m`.  The append happens for *every* group: it is guarded by the
+    `global_funcs` switch alone - no test on the group's name (the ignore lists are about class members and classes; a
+    free function called like one of those entries is still a declared function), and the list that is grouped is the
+    whole list handed in.  A membership test whose left side is the group itself (a list of overloads, never equal to a
+    name) is dead and is reported as a note only."""
+    ci, prog = mw(ctx)
+    fn = prog.method("MatlabWrapper", "wrap_methods")
+    params = func_params(fn)
+    loc = f"{ci.mod.rel}:{fn.lineno}"
+    appends = [c for c in walk_no_nested(fn) if isinstance(c, ast.Call) and unparse(c.func) == "self.content.append"]
+    if len(appends) != 1:
+        raise AnalysisError(f"MatlabWrapper.wrap_methods: {len(appends)} appends to self.content, 1 expected (the free function's file)")
+    call = appends[0]
+    loop = enclosing(call, ast.For)
+    if loop is None or not isinstance(loop.target, ast.Name):
+        raise AnalysisError("MatlabWrapper.wrap_methods: the function file is not appended inside a loop over the groups")
+    g = loop.target.id
+    is_seq = any(isinstance(x, ast.Subscript) and isinstance(x.value, ast.Name) and x.value.id == g for x in ast.walk(loop))
+    bad, dead = [], []
+    for t, pol in guards_of(call, fn, include_exits=True):
+        e = ast.parse(t, mode="eval").body
+        if isinstance(e, ast.Name) and e.id in params and pol:
+            continue                                          # the global_funcs switch
+        if isinstance(e, ast.Compare) and len(e.ops) == 1 and isinstance(e.ops[0], (ast.In, ast.NotIn)) and isinstance(e.left, ast.Name) \
+                and e.left.id == g and is_seq and unparse(e.comparators[0]).startswith("self.ignore_"):
+            dead.append(t)                                    # a list of overloads looked up in a tuple of names: never found
+            continue
+        bad.append(f"`{t}` is {pol}")
+    rep.add(rid, "wrap_methods:the file of a free function is appended for every group of overloads", not bad,
+            f"the append also depends on {bad}: a declared free function for which this fails gets no .m file, no id and no routine "
+            f"(the ignore lists name class members and classes, not free functions)" + (f"; dead test(s) {dead}" if dead else ""),
+            f"{ci.mod.rel}:{call.lineno}")
+    # the groups are built from the whole list handed in
+    it = inline_locals(fn, loop.iter)
+    src = None
+    if isinstance(it, ast.Call) and unparse(it.func) == "self._group_methods" and len(it.args) == 1:
+        src = it.args[0]
+    elif isinstance(loop.iter, ast.Name) and loop.iter.id in params:
+        # `methods = self._group_methods(methods)`: the parameter is re-bound once before the loop
+        defs = [st for st in fn.body if isinstance(st, ast.Assign) and len(st.targets) == 1 and isinstance(st.targets[0], ast.Name)
+                and st.targets[0].id == loop.iter.id]
+        if len(defs) == 1 and isinstance(defs[0].value, ast.Call) and unparse(defs[0].value.func) == "self._group_methods" and len(defs[0].value.args) == 1:
+            src = defs[0].value.args[0]
+    whole = isinstance(src, ast.Name) and src.id in params
+    rep.add(rid, "wrap_methods:the groups are formed from the whole list handed in", whole,
+            f"the loop runs over `{unparse(loop.iter)[:60]}`, grouped from `{unparse(src)[:60] if src is not None else '?'}`: a filtered list leaves declared functions without a file",
+            loc, nontrivial=False)
